@@ -18,6 +18,8 @@ from __future__ import annotations
 
 from fractions import Fraction
 
+import os
+
 import numpy as np
 
 from .. import tlc
@@ -165,6 +167,53 @@ def run(ctx):
                 cmp("T_SO3_dot(0, psi_dot)", rot.T_SO3_dot(z3.copy(), dirf.copy()), mat_value(ex["T"], "d", eps0, syms0), dict(where, psi_dot=dirf.tolist()))
         except Exception as ex_:
             ctx.violation(f"zero:raises:{type(ex_).__name__}", f"{type(ex_).__name__}: {ex_} at {where}", where)
+    # quaternion tangent maps and their derivatives (both normalize variants): the QuatKernel cases on its large-ratio points
+    from . import c01
+    qcfg = os.path.join(ctx.scratch, "qk_c03.cfg")
+    c01._cfg(qcfg, 1, 1, "extra", True, False)
+    qdot = os.path.join(ctx.scratch, "qk_c03")
+    rq = tlc.run_tlc("QuatKernel", qcfg, scratch=ctx.scratch, dump_dot=qdot, timeout=3000)
+    tlc.require_ok(rq, "QuatKernel extra (C03)")
+    if rq.violated:
+        ctx.violation(f"spec:{rq.violated}", f"TLC: {rq.violated} violated", {"stdout": rq.stdout[-3000:]})
+    else:
+        gq = tlc.parse_dot(qdot + ".dot")
+        for nid in gq.init:
+            stq = gq.nodes[nid]
+            c01.check_point(ctx, list(stq["P"]), stq["expected"], "quaternion")
+            ncmp += 1
+    # functions of the argument's VALUE: one buffer updated in place between uninterrupted calls must give the result of the new value
+    pure_pts = [np.array(v, dtype=float) for v in ((0.3, -0.2, 0.5), (0.3, -0.2, 0.5), (1.0, 2.0, -1.5), (1e-4, 0.0, 2e-4), (0.0, 0.0, 0.0), (0.4, 0.4, -0.1), (0.51, -0.34, 0.85), (0.0, 0.0, 0.0))]
+    pd = np.array([0.7, -1.1, 0.4])
+    fns = [("Exp_SO3_psi", lambda b: rot.Exp_SO3_psi(b)), ("T_SO3", lambda b: rot.T_SO3(b)), ("T_SO3_psi", lambda b: rot.T_SO3_psi(b)), ("T_SO3_inv", lambda b: rot.T_SO3_inv(b)),
+           ("T_SO3_inv_psi", lambda b: rot.T_SO3_inv_psi(b)), ("T_SO3_dot", lambda b: rot.T_SO3_dot(b, pd.copy())),
+           ("Exp_SE3_h", lambda b: rot.Exp_SE3_h(np.concatenate([[1.0, -2.0, 0.5], b]))), ("Exp_SE3", lambda b: rot.Exp_SE3(np.concatenate([[1.0, -2.0, 0.5], b])))]
+    for name, f in fns:
+        try:
+            fresh = [np.array(f(x.copy()), dtype=float) for x in pure_pts]
+            buf = np.zeros(3); prev = None
+            for x, exp in zip(pure_pts, fresh):
+                buf[:] = x
+                got = np.array(f(buf), dtype=float)
+                ncmp += 1
+                if not np.array_equal(got, exp):
+                    ctx.violation(f"purity:{name}", f"{name} on a buffer updated in place from {prev} to {x.tolist()} returned the result of another value "
+                                  f"(max deviation {np.max(np.abs(got - exp)):.3e})", {"psi": x.tolist(), "previous": prev})
+                    break
+                if not np.array_equal(buf, x):
+                    ctx.violation(f"purity:{name}:mutates-argument", f"{name} modified its argument {x.tolist()}", {"psi": x.tolist()})
+                    break
+                prev = x.tolist()
+            # a view into a longer array, scaled in place (what Exp_SE3_h hands on)
+            h = np.concatenate([[1.0, -2.0, 0.5], pure_pts[0]])
+            f(h[3:]); h[3:] *= 1.7
+            got = np.array(f(h[3:]), dtype=float); exp = np.array(f((pure_pts[0] * 1.7).copy()), dtype=float)
+            ncmp += 1
+            if not np.allclose(got, exp, rtol=0, atol=1e-14):
+                ctx.violation(f"purity:{name}", f"{name} on a view that was scaled in place returned the result of another value (max deviation {np.max(np.abs(got - exp)):.3e})",
+                              {"psi": (pure_pts[0] * 1.7).tolist(), "history": "view scaled in place"})
+        except Exception as ex_:
+            ctx.violation(f"purity:{name}:raises:{type(ex_).__name__}", f"{type(ex_).__name__}: {ex_}", {"routine": name})
     # binding self-test: a corrupted element must produce a different number
     st = cases[0]
     el = [list(map(list, p)) for p in st["expected"]["T"][0][1]["d"]]
@@ -182,7 +231,8 @@ def run(ctx):
                             "of their derivatives along the direction"}
     ctx.assumptions = ["sin, cos, cot(a/2) are evaluated by the harness to more than 40 digits in rational arithmetic; the comparison tolerance is 1e-7 relative to 1 + |value| (the routines' closed forms lose digits to cancellation like 1e-16 / |psi|: about 1e-8 at |psi| ~ 1e-8; the defects found were errors of 1e-4 to 0.5)",
                        "claimed for Exp_SO3_psi, T_SO3_psi, T_SO3_dot, T_SO3_inv_psi, Exp_SE3_h (and the maps themselves); Log_SO3_A and Log_SE3_H are not covered; the "
-                       "quaternion tangent maps are decided under C01"]
+                       "quaternion tangent maps and their derivatives (normalize True / False) are decided by QuatKernel.tla (C01's cases; its 12 large-ratio points are replayed here too)",
+                       "in-place histories: each routine is called on one buffer that is overwritten between calls and must return exactly what it returns for a fresh array of the same value"]
 
 
 def replay(ctx, path):
